@@ -143,6 +143,30 @@ def run(P, R, tier, cfg):
                 idx = fmt_sym(gr.sym_operand(c.args[1]))
                 if "HashMap::get(" in idx and "self.rule_index" in idx and "rule_name" in idx:
                     ok = True
+    if not ok:
+        # chained form: index.get(name).and_then(|&pos| rules.get(pos))
+        for c in gr.calls():
+            if c.bb not in gr.normal_blocks() or not c.name.endswith(("Option::and_then", "Option::map")) or len(c.args) != 2:
+                continue
+            src = fmt_sym(gr.sym_operand(c.args[0]), maxdepth=12)
+            if not ("HashMap::get(" in src and "self.rule_index" in src and "rule_name" in src):
+                continue
+            for x in walk(gr.sym_operand(c.args[1])):
+                if x[0] == "agg" and x[1].startswith("closure:") and x[1][len("closure:"):] in P.fns:
+                    cl = P.fns[x[1][len("closure:"):]]
+                    caps_rules = set()
+                    for i, cap in enumerate(x[2]):
+                        if (A.through_guard(cap) or (None, None))[1] == "self.rules":
+                            caps_rules.add(i)
+                            if cap[0] == "var":       # captured variables are closure fields named after the variable
+                                caps_rules |= {cap[1], "_ref__" + cap[1]}
+                    for cc in cl.calls():
+                        if cc.bb in cl.normal_blocks() and cc.name.endswith("::get") and not cc.name.endswith("HashMap::get") and len(cc.args) == 2:
+                            recv, idx = cc_syms = (cl.sym_operand(cc.args[0]), cl.sym_operand(cc.args[1]))
+                            recv_cap = any(y[0] == "field" and strip(y[1])[0] == "param" and strip(y[1])[1] == 1 and (y[2] in caps_rules or (str(y[2]).isdigit() and int(y[2]) in caps_rules)) for y in walk(recv))
+                            idx_par = any(y[0] == "param" and y[1] == 2 for y in walk(idx)) and not any(y[0] == "call" and y[1] not in ("std::ops::Deref::deref",) and y[4] not in ("std::ops::Deref::deref",) for y in walk(idx))
+                            if recv_cap and idx_par:
+                                ok = True
     if ok:
         R.hold("d", "get_rule: rules.get(index.get(name)) under both read guards", fn=gr)
     elif any(c.name.endswith("HashMap::get") and "rule_index" in fmt_sym(g_.sym_operand(c.args[0]), maxdepth=10) for g_ in [gr] + P.closures_of(gr) for c in g_.calls() if c.args) \
